@@ -34,12 +34,16 @@ impl MTy {
     }
     /// concrete pyxis syntax
     pub fn pyxis(&self) -> String {
+        self.pyxis_styled(NumStyle::Dec)
+    }
+    /// concrete pyxis syntax with array lengths / gap sizes spelled in the given style
+    pub fn pyxis_styled(&self, st: NumStyle) -> String {
         match self {
             MTy::B(n) => n.to_string(),
-            MTy::Ptr(false, t) => format!("*const {}", t.pyxis()),
-            MTy::Ptr(true, t) => format!("*mut {}", t.pyxis()),
-            MTy::Arr(t, n) => format!("[{}; {}]", t.pyxis(), n),
-            MTy::Unk(n) => format!("unknown<{n}>"),
+            MTy::Ptr(false, t) => format!("*const {}", t.pyxis_styled(st)),
+            MTy::Ptr(true, t) => format!("*mut {}", t.pyxis_styled(st)),
+            MTy::Arr(t, n) => format!("[{}; {}]", t.pyxis_styled(st), num(*n as i128, st)),
+            MTy::Unk(n) => format!("unknown<{}>", num(*n as i128, st)),
             MTy::User(n) => n.clone(),
         }
     }
@@ -360,7 +364,7 @@ impl Printer {
             Recv::Mut => args.push("&mut self".to_string()),
         }
         for (n, t) in &f.args {
-            args.push(format!("{n}: {}", t.pyxis()));
+            args.push(format!("{n}: {}", t.pyxis_styled(self.style)));
         }
         let _ = write!(
             out,
@@ -370,7 +374,7 @@ impl Printer {
             args.join(", ")
         );
         if let Some(r) = &f.ret {
-            let _ = write!(out, " -> {}", r.pyxis());
+            let _ = write!(out, " -> {}", r.pyxis_styled(self.style));
         }
         let _ = writeln!(out, ";");
     }
@@ -449,7 +453,7 @@ impl Printer {
                 "    {}{}: {},",
                 if f.public { "pub " } else { "" },
                 f.name.as_deref().unwrap_or("_"),
-                f.ty.pyxis()
+                f.ty.pyxis_styled(self.style)
             );
         }
         let _ = writeln!(out, "}}");
